@@ -15,10 +15,17 @@ CLAIMED = {
     "C08": ("Equivariance theorems on the reference semantics (regrouping for any nesting depth; renaming, permutation) plus metamorphic "
             "relations replayed on the implementation (rename, permute-with-tensor, regroup, id inverse, id composition)",
             "Coq theorems on the spec + metamorphic correspondence", "DESIGN.md 3/C08"),
-    "C12": ("Gallina model of the lexer/parser/printer (Model/Parse.v) with machine-checked theorems in Props/C12.v; tied to /repo by "
-            "regenerated tables and by an exhaustive + random correspondence against parse_op; direct totality/re-print/spacing oracles "
-            "on the implementation are the search step",
+    "C12": ("Gallina model of the lexer/parser/printer (Model/Parse.v) and theorems for every string of any length (Props/C12.v): parse_op / "
+            "parse_args / parse_arg end with a tree or a SyntaxError whose markers index into the caller's string, the source's asserts are "
+            "unreachable (induction over the token list, the delimiter stack and the expression tree through all five parser stages); "
+            "tied to /repo by regenerated tables and an exhaustive + random differential correspondence against parse_op (class, site, "
+            "positions, tree); re-print and spacing stability are decided by direct oracles on the implementation (search step, not theorems)",
             "Coq proof over a hand-written executable model + generated-table lemmas + differential correspondence", "DESIGN.md 3/C12"),
+    "C03": ("Theorem (Props/C03.v): for every string the parser model never reaches an internal failure (assert) - the first stage of every "
+            "entry point. The rest of the property (rule layer, solver, argument binding, no backend call before the exception) is decided "
+            "by an oracle over single-edit corruptions of generated valid calls and raw strings on every entry point: exception class in the "
+            "documented set, no internal exception type, an ndarray subclass counts backend calls before the exception",
+            "Coq theorem on the parser model (all strings) + corruption oracle on the implementation for the later stages (sampled, partial)", "DESIGN.md 3/C03"),
 }
 CLAIMED.update({
     "C14": ("Theorems in Props/C14.v over Spec/UpdateSem.v: every contribution applied exactly once (accumulating duplicates), untouched "
@@ -95,6 +102,7 @@ CLAIMED.update({
             "Coq theorems over a regenerated kernel + value/argument correspondence with recording user functions", "DESIGN.md 3/C15"),
 })
 EXTRA_NOTES = {"C15": "adapt_with_vmap is not exercised: no framework offering vmap is importable in this sandbox (stated in DESIGN.md). ", "C10": "Partial: pre-emption inside C code (functools.cache, dict operations) and the tracing/compilation part of a call are not scheduled; only the registry methods are. ",
+               "C03": "Partial: only the stage-1 parser is covered by a theorem; rule layer, solver and binding errors are sampled by the corruption oracle. ",
                "C11": "The refinement theorem model-get = select is not yet proved for all histories (stated in DESIGN.md); the model is tied to the code by correspondence. "}
 
 
